@@ -117,6 +117,7 @@ func c10Execute(u []c10Target, au *c10Audit, hist []c10Op, at int, f crashds.Fau
 			done += store.Mutations()
 			res.syncs += store.Syncs()
 			store = store.Reopen()
+			model.Restarted()
 			arm()
 			cg, err = NewBasicConnectionGater(store)
 			if err != nil {
@@ -137,12 +138,12 @@ func c10Execute(u []c10Target, au *c10Audit, hist []c10Op, at int, f crashds.Fau
 		res.cum = append(res.cum, done+store.Mutations())
 		if stop != nil {
 			res.stoppedAt = i
-			model.NotReturned(u[op.Target], op.Block)
+			model.NotReturned(u[op.Target], op.Block, false)
 			count("stopped/" + stop.Fault.String())
 			break
 		}
 		if callErr != nil {
-			model.NotReturned(u[op.Target], op.Block)
+			model.NotReturned(u[op.Target], op.Block, true)
 			count("call-returned-error")
 		} else {
 			model.Returned(u[op.Target], op.Block)
@@ -153,6 +154,7 @@ func c10Execute(u []c10Target, au *c10Audit, hist []c10Op, at int, f crashds.Fau
 	res.syncs += store.Syncs()
 	// restart on the surviving content: the old gater object is gone
 	cg = nil
+	model.Restarted()
 	re := store.Reopen()
 	res.endKeys = strings.Join(re.Keys(), ",")
 	res.endModel = model.String()
